@@ -678,6 +678,44 @@ def check_C15(ctx):
 
 
 # ------------------------------------------------------------------------------------------------ C20
+def c20_stream_rows(ctx):
+    """R2 + R3 hand-over for stream insertion/extraction: CxxStreamModel (transcription of the ostream path against the C++ standard's layout,
+    istream field grammar against the C-level number grammar) prints every row; they go to harness/cxx_stream.cc as a tab separated file"""
+    import re
+    q = ctx.tier == 'quick'
+    r = assume_model(ctx, 'CxxStreamModel', {'EMIT': 'TRUE', 'Variant': '"ok"', 'L': 3 if q else 4}, timeout=3000)
+    ctx.model_must_hold(r, what='(operator<< path of cxx/os*.cc + printf/doprnti.c = layout of the C++ standard; istream field = number of the C-level grammar)')
+    rows = []; nos = nis = 0
+    for l in r['out'].splitlines():
+        l = l.strip()
+        m = re.match(r'<<"OS", "(\w+)", "(\w+)", (TRUE|FALSE), (TRUE|FALSE), (TRUE|FALSE), (\d+), "(.)", "(-?[0-9a-f]+)">>$', l)
+        if m: rows.append('OS\t' + '\t'.join(m.groups())); nos += 1; continue
+        m = re.match(r'<<"IS", "(\w+)", (TRUE|FALSE), (".*")>>$', l)
+        if m: rows.append('IS\t' + '\t'.join(m.groups())); nis += 1
+    want = re.search(r'<<"CxxStreamModel", (\d+), (\d+)>>', r['out'])
+    if not want or (int(want.group(1)), int(want.group(2))) != (nos, nis):
+        raise Machinery(f'CxxStreamModel: {nos}+{nis} rows parsed from the TLC output, the model reports {want.groups() if want else "?"}')
+    need(nos, 20000, 'C20 ostream rows'); need(nis, 20000, 'C20 istream rows')
+    for mm in ctx.models:
+        if mm['name'] == 'CxxStreamModel': mm['states'] = max(mm['states'], nos + nis); mm['transitions'] = mm['states']
+    p = os.path.join(ctx.scratch, 'stream.rows'); open(p, 'w').write('\n'.join(rows) + '\n')
+    ctx.notes.append(f'stream rows enumerated by TLC: {nos} insertion states x values, {nis} extraction inputs x states')
+    return p
+
+
+def split_validate(ctx, tracep, stem, n=16):
+    """split one ndjson file at execution boundaries into n files and validate them in parallel"""
+    lines = open(tracep).read().splitlines(); chunks = [[] for _ in range(n)]; k = -1
+    for l in lines:
+        if l.startswith('{"e":"reset"'): k += 1
+        chunks[k % n if k >= 0 else 0].append(l)
+    paths = []
+    for i, c in enumerate(chunks):
+        if c: p = os.path.join(ctx.scratch, f'{stem}.{i}.ndjson'); open(p, 'w').write('\n'.join(c) + '\n'); paths.append(p)
+    os.remove(tracep)
+    ctx.validate(paths)
+
+
 def check_C20(ctx):
     import re, glob, concurrent.futures as cf
     from verif import sh
@@ -697,7 +735,8 @@ def check_C20(ctx):
     rc, out = sh(['python3', os.path.join(VERIF, 'lib/cxxgen.py'), outs['z'], outs['q'], gen, str(ctx.seed), '3000' if q else '0', '1200' if q else '0'], timeout=600)
     if rc != 0: raise Machinery('cxxgen failed: ' + out[-2000:])
     ctx.notes.append('generator: ' + out.strip())
-    srcs = sorted(glob.glob(os.path.join(gen, '*.cc'))) + [os.path.join(VERIF, 'harness/cxx_conv.cc')]
+    rowsp = c20_stream_rows(ctx)
+    srcs = sorted(glob.glob(os.path.join(gen, '*.cc'))) + [os.path.join(VERIF, 'harness/cxx_conv.cc'), os.path.join(VERIF, 'harness/cxx_stream.cc'), os.path.join(VERIF, 'harness/cxx_mpf.cc')]
     def comp(s):
         o = os.path.join(gen, os.path.basename(s) + '.o')
         return sh(['g++', '-O0', '-w', f'-I{bx}', '-c', s, '-o', o], timeout=900) + (o,)
@@ -712,19 +751,10 @@ def check_C20(ctx):
     rc, out = sh(['g++', '-no-pie', '-o', exe] + objs + [os.path.join(bx, '.libs/libmpirxx.a'), os.path.join(bx, '.libs/libmpir.a')], timeout=600)
     if rc != 0: raise Machinery('C++ link failed: ' + out[-2000:])
     tracep = os.path.join(ctx.scratch, 'cxx.ndjson')
-    rc, out = sh([exe, tracep, '4'], timeout=900)
+    rc, out = sh([exe, tracep, '4', rowsp], timeout=900)
     if rc != 0:
         with open(tracep, 'a') as f: f.write('\n{"e":"crash","sig":%d,"in":"C++ expression run"}\n' % (rc if rc > 0 else -rc))
-    # split at execution boundaries into 16 files for parallel validation
-    lines = open(tracep).read().splitlines(); chunks = [[] for _ in range(16)]; k = -1
-    for l in lines:
-        if l.startswith('{"e":"reset"'): k += 1
-        chunks[k % 16 if k >= 0 else 0].append(l)
-    paths = []
-    for i, c in enumerate(chunks):
-        if c: p = os.path.join(ctx.scratch, f'cxx.{i}.ndjson'); open(p, 'w').write('\n'.join(c) + '\n'); paths.append(p)
-    os.remove(tracep)
-    ctx.validate(paths)
+    split_validate(ctx, tracep, 'cxx')       # split at execution boundaries into 16 files for parallel validation
     return ctx.finish('exploration',
         rule='programs = well-typed mpz_class / mpq_class expression trees of depth <= 2 enumerated by TLC from the typed grammar (CxxExpr.tla: every op1(op2(x,y),z) and mirror image over 11 leaves '
              'incl. LONG_MIN/LONG_MAX/ULONG_MAX/doubles on either side, op1(op2,op3) over a smaller alphabet, unary wrappers, comparisons/cmp/sgn at the root; quick: a seeded 3000 + 1200), '
